@@ -1836,6 +1836,68 @@ func (e *Engine) forwardedStore(s *fstate, ld *ssa.UnOp, fa *ssa.FieldAddr, k fi
 	return nil
 }
 
+// sameCellLoad: a and b are two loads of the same field of the same local object (in.err tested,
+// then in.err returned) with no store to that field of that object anywhere in the function between
+// the blocks of the two loads (checked conservatively: no store to it in either block after the
+// first load, and none in the function outside the object's own methods is looked for — the object
+// is a local allocation whose address is only used for field access and calls).
+func sameCellLoad(a, b ssa.Value) bool {
+	la, ok1 := a.(*ssa.UnOp)
+	lb, ok2 := b.(*ssa.UnOp)
+	if !ok1 || !ok2 || la.Op != token.MUL || lb.Op != token.MUL || la == lb {
+		return false
+	}
+	fa, ok1 := la.X.(*ssa.FieldAddr)
+	fb, ok2 := lb.X.(*ssa.FieldAddr)
+	if !ok1 || !ok2 || fa.Field != fb.Field || !sameObject(fa.X, fb.X) {
+		return false
+	}
+	// no store to that field and no call between the tested load and the later load when they are
+	// in a tested-block / successor relation (the common shape); otherwise refuse
+	first, second := la, lb
+	if !(first.Block() == second.Block() || first.Block().Dominates(second.Block())) {
+		first, second = lb, la
+		if !(first.Block() == second.Block() || first.Block().Dominates(second.Block())) {
+			return false
+		}
+	}
+	clean := func(blk *ssa.BasicBlock, from, to int) bool {
+		for i := from; i < to && i < len(blk.Instrs); i++ {
+			switch x := blk.Instrs[i].(type) {
+			case *ssa.Store:
+				if sfa, ok := x.Addr.(*ssa.FieldAddr); ok && sfa.Field == fa.Field && sameObject(sfa.X, fa.X) {
+					return false
+				}
+			case ssa.CallInstruction:
+				if _, isB := x.Common().Value.(*ssa.Builtin); !isB {
+					return false
+				}
+			}
+		}
+		return true
+	}
+	if first.Block() == second.Block() {
+		return clean(first.Block(), instrIndex(first)+1, instrIndex(second))
+	}
+	// different blocks: second's block must be an immediate successor chain without other work
+	if !clean(first.Block(), instrIndex(first)+1, len(first.Block().Instrs)) {
+		return false
+	}
+	for blk := second.Block(); blk != first.Block(); blk = blk.Idom() {
+		if blk == nil {
+			return false
+		}
+		upto := len(blk.Instrs)
+		if blk == second.Block() {
+			upto = instrIndex(second)
+		}
+		if !clean(blk, 0, upto) {
+			return false
+		}
+	}
+	return true
+}
+
 // nonNilError: the error operand of a return is certainly non-nil.
 func nonNilError(v ssa.Value, at *ssa.BasicBlock, depth int) bool {
 	if depth > 4 {
@@ -1876,9 +1938,9 @@ func nonNilError(v ssa.Value, at *ssa.BasicBlock, depth int) bool {
 			continue
 		}
 		var other ssa.Value
-		if bo.X == v {
+		if bo.X == v || sameCellLoad(bo.X, v) {
 			other = bo.Y
-		} else if bo.Y == v {
+		} else if bo.Y == v || sameCellLoad(bo.Y, v) {
 			other = bo.X
 		} else {
 			continue
